@@ -1,10 +1,11 @@
 (* The single extraction root: command dispatch of modelrun. *)
 From Coq Require Import List String.
-From SCC Require Import Base.Sexp Model.RunBase Model.RunPM.
+From SCC Require Import Base.Sexp Model.RunBase Model.RunPM Model.RunStages.
 Open Scope string_scope.
 
 Definition dispatch (cmd : string) (input : string) : string :=
   match cmd with
   | "pm" => run_pm input
+  | "stages" => run_stages input
   | _ => "BAD - unknown command " ++ cmd ++ nl
   end.
